@@ -125,6 +125,9 @@ def lift(x):
         return x
     if x is None:
         return S_NONE
+    import enum as _enum
+    if isinstance(x, _enum.Enum):
+        return s_py(x)
     if isinstance(x, bool):
         return s_bool(x)
     if isinstance(x, int):
@@ -224,6 +227,28 @@ def conjuncts(t):
     return [t]
 
 
+def is_initial_read(v):
+    """is the term a read of the initial heap: select(H0_f, _), or an element (nth) of such a read / of an input?"""
+    t = v
+    for _ in range(6):
+        if not z3.is_app(t):
+            return False
+        k = t.decl().kind()
+        if k == z3.Z3_OP_SELECT:
+            a = t.arg(0)
+            return z3.is_const(a) and a.decl().name().startswith("H0_")
+        if k in (z3.Z3_OP_SEQ_NTH,) or t.decl().name() in ("seq.nth_i", "seq.nth_u", "seq.nth"):
+            t = t.arg(0)
+            if z3.is_const(t) and t.decl().kind() == z3.Z3_OP_UNINTERPRETED:
+                return True
+            continue
+        return False
+    return False
+
+
+_SEQ_GENERIC = {z3.Z3_OP_SEQ_CONCAT, z3.Z3_OP_SEQ_EXTRACT, z3.Z3_OP_SEQ_AT, z3.Z3_OP_SEQ_PREFIX, z3.Z3_OP_SEQ_SUFFIX, z3.Z3_OP_SEQ_CONTAINS}
+TAGS = ["VUndef", "VNull", "VNone", "VBool", "VInt", "VFlt", "VStr", "VRef"]
+TESTERS = None
 _HEAVY_KINDS = None
 _heavy_cache = {}
 
@@ -254,7 +279,13 @@ def heavy(t):
             continue
         if not done:
             k = x.decl().kind()
-            if k in _HEAVY_KINDS or (k == z3.Z3_OP_UNINTERPRETED and x.num_args() > 0 and x.decl().name().startswith("seq.")):
+            hv = k in _HEAVY_KINDS or (k == z3.Z3_OP_UNINTERPRETED and x.num_args() > 0 and x.decl().name().startswith("seq."))
+            if hv and k in _SEQ_GENERIC:
+                # concat / extract / at on sequences of values (lists, stacks) stay light; on strings heavy
+                srt = x.sort()
+                if srt == ValSeq or (x.num_args() and x.arg(0).sort() == ValSeq):
+                    hv = False
+            if hv:
                 cache[xi] = (True, x)
                 continue
             ch = x.children()
@@ -322,6 +353,14 @@ class Path:
         self.pc_raw[c.get_id()] = raw
         if decision:
             self.decision_ids.add(c.get_id())
+            # remember a decided tag test  is(VX, t)
+            try:
+                if z3.is_app(c) and c.decl().kind() == z3.Z3_OP_DT_IS:
+                    ctor = c.decl().params()[0].name()
+                    self.known_tag[c.arg(0).get_id()] = TAGS.index(ctor)
+                    self.keep.append(c.arg(0))
+            except Exception:   # noqa
+                pass
         # the feasibility solver sees only the cheap part of the path condition (an
         # over-approximation of feasibility: sound, extra paths are discharged vacuously)
         if not heavy(c):
@@ -592,16 +631,24 @@ class Engine:
     tag_hints: dict = {}
     TAG_OF_KIND = {"int": 4, "bool": 3, "str": 6, "float": 5, "none": 2, "ref": 7}
 
-    def merged(self, thunk, key=None):
+    def merged(self, thunk, key=None, ctx=()):
         """execute a pure computation over all its sub-paths and continue on ONE path with the
         results merged into if-then-else terms (outer forks only between distinct exception classes).
         With a key (function + argument terms + heap identity) the exploration is done once under the
         base facts only (a superset of the sub-paths feasible on any outer path) and cached."""
         p = self.p
         heap0, nalloc0, known0, depth0 = dict(p.heap), p.nalloc, dict(p.known_tag), self.depth
+        pre = []
         if key is not None:
             key = key + (tuple(sorted((k, v.get_id()) for k, v in p.heap.items())), p.nalloc)
             self.keepalive.extend(p.heap.values())
+            # context sensitivity: tags of the arguments already decided on the caller's path
+            testers = [Val.is_VUndef, Val.is_VNull, Val.is_VNone, Val.is_VBool, Val.is_VInt, Val.is_VFlt, Val.is_VStr, Val.is_VRef]
+            for t in ctx:
+                tg = p.known_tag.get(t.get_id())
+                if tg is not None:
+                    pre.append(testers[tg](t))
+                    key = key + (("tag", t.get_id(), tg),)
 
         def restore():
             p.heap = dict(heap0)
@@ -620,7 +667,7 @@ class Engine:
             saved_solver, saved_pc = p.solver, p.pc
             p.solver = z3.Solver()
             p.solver.set("timeout", 700)
-            p.pc = list(saved_pc[:p.n_base])
+            p.pc = list(saved_pc[:p.n_base]) + pre
             for a in p.pc:
                 p.solver.add(a)
             try:
@@ -1126,6 +1173,8 @@ class Engine:
             # identical terms / pure constructors
             if a2.eq(b2) and not self._may_be_nan_val(a2):
                 return z3.BoolVal(True)
+        if a.kind == "pytype" and b.kind == "pytype":
+            return a.t == b.t
         a, b = self.refine(a), self.refine(b)
         ka, kb = a.kind, b.kind
         num = ("int", "float", "bool")
@@ -1151,6 +1200,11 @@ class Engine:
             if len(a.items) != len(b.items):
                 return z3.BoolVal(False)
             return z3.And([self.eq(x, y) for x, y in zip(a.items, b.items)] + [z3.BoolVal(True)])
+        import enum as _enum
+        if ka == "py" and isinstance(a.py, _enum.IntEnum) and kb == "int":
+            return b.t == int(a.py)
+        if kb == "py" and isinstance(b.py, _enum.IntEnum) and ka == "int":
+            return a.t == int(b.py)
         if ka in ("py", "class", "func", "module") or kb in ("py", "class", "func", "module"):
             if ka == kb:
                 return z3.BoolVal(a.py == b.py)
@@ -1176,6 +1230,9 @@ class Engine:
             c = conc_bool(z3.Or(Val.is_VUndef(tb), Val.is_VNull(tb), Val.is_VNone(tb), Val.is_VBool(tb), Val.is_VRef(tb)))
             c2 = conc_bool(z3.Or(Val.is_VUndef(ta), Val.is_VNull(ta), Val.is_VNone(ta), Val.is_VBool(ta), Val.is_VRef(ta)))
             if c or c2:
+                return both_single
+            unstable = lambda t: z3.Or(Val.is_VInt(t), Val.is_VFlt(t), Val.is_VStr(t))
+            if not self.p.feasible(z3.And(unstable(ta), unstable(tb))):
                 return both_single
             raise Unsupported("`is` on values that may be numbers/strings")
         if ka == "none" or kb == "none":
@@ -1427,10 +1484,11 @@ class Engine:
             self.p.assume(self.seq_elem_fact(v))
 
     def elem_fact(self, container: SV, v):
-        """elements read from a container allocated before the function started are old,
-        well-formed values (encoding invariant)"""
+        """values read from the *initial* heap are old, well-formed values (encoding invariant);
+        nothing is assumed about values that may have been stored during this execution"""
         self.p.assume(M.val_wf(v))
-        self.p.assume(z3.Implies(z3.And(Val.is_VRef(v), container.ref < self.p.alloc0), Val.ref(v) < self.p.alloc0))
+        if is_initial_read(v):
+            self.p.assume(z3.Implies(z3.And(Val.is_VRef(v), container.ref < self.p.alloc0), Val.ref(v) < self.p.alloc0))
 
     def concrete_key(self, idx: SV):
         if idx.kind == "str":
